@@ -1067,3 +1067,23 @@ Proof.
   split; [apply (i_cur _ _ _ _ C)|].
   rewrite (recv_run c _ _ _ _ H). cbn. lia.
 Qed.
+
+(* ---------------------------------------------------------------------------------------------- *)
+(* between the moment run() takes a packet of flow f out of its queue and the start of the transmission timer *)
+Definition committed (s : mq) (f : Z) : Prop :=
+  (exists rem, mpc s = PGet f rem) \/ (exists p, mchild s = CInit p /\ flow p = f).
+
+Lemma committed_urgent c s f : 0 < rate c -> reachable c s -> committed s f -> urgent c s = true.
+Proof.
+  intros R Rs Cm. destruct (reachable_inv c s R Rs) as (ins & outs & [C Sh]).
+  unfold urgent. destruct Cm as [(rem & P)|(p & Ch & _)].
+  - destruct (i_pget _ Sh f rem P) as (x & Gx).
+    assert (Hf : In f (flows c)).
+    { destruct (held_in_ins c ins outs s f (snd x) C) as [Fx Hin].
+      - unfold held_flow. apply in_or_app. right. unfold sq_held. rewrite Gx. left. reflexivity.
+      - rewrite <- Fx. apply (i_ins _ _ _ _ C _ Hin). }
+    assert (Ex : existsb (fun f0 => sq_urgent (mstores s f0)) (flows c) = true).
+    { apply existsb_exists. exists f. split; [exact Hf|]. unfold sq_urgent. rewrite Gx. apply orb_true_r. }
+    rewrite Ex. rewrite orb_true_r. reflexivity.
+  - unfold child_urgent. rewrite Ch. apply orb_true_r.
+Qed.
